@@ -25,6 +25,7 @@ import (
 	"runtime"
 
 	"github.com/canopy-network/canopy/lib"
+	"github.com/canopy-network/canopy/lib/crypto"
 	"verifharness/drv"
 	"verifharness/execdrv"
 	"verifharness/node"
@@ -50,6 +51,7 @@ func Run(o *drv.Out) {
 		bigSends = []int{300, 40, 0, 1, 700, 1500, 3, 16, 120}
 	}
 	corpusOversize(o) // corpus first
+	corpusFullBlock(o)
 	for ci := 0; ci < nCases; ci++ {
 		runCase(o, ci, nHeights, bigSends)
 	}
@@ -129,6 +131,77 @@ func corpusOversize(o *drv.Out) {
 	c.Restart(P)
 	round(sends(capTx, 4, 2000), "h4-capacity")
 	o.Sample(fmt.Sprintf("corpus-oversize-remainder: capacity %d sends; 200 and %d sends validate on proposer and replica, no differing keys", capTx, capTx+1))
+}
+
+// corpusFullBlock: a block that is FULL of small transactions (several hundred sends, mempool
+// overflowing). The proposer fills a block up to blockSize - MaxBlockHeaderSize bytes of RAW
+// transaction bytes; serialized, every transaction costs a few more bytes of framing, so the
+// serialized block may exceed blockSize while honouring the limit the protocol defines (raw
+// transaction bytes). Every path that runs QuorumCertificate.Check with the state-derived limit
+// (HandlePeerBlock outside sync) must still accept it.
+func corpusFullBlock(o *drv.Out) {
+	o.Case("corpus-full-block-of-small-txs")
+	rng := rand.New(rand.NewSource(46))
+	const room = 150_000
+	net := node.NewNetwork(8, 4, nil, 24, node.Options{BlockSize: lib.MaxBlockHeaderSize + room})
+	defer net.Close()
+	c := execdrv.NewChain(o, net, rng, []int{16, 2})
+	P, V, R, S := c.NewNode("P", 0), c.NewNode("V", 1), c.NewNode("R", -1), c.NewNode("S", -1)
+	var senders []int
+	for i, k := range net.AcctKeys {
+		if _, isBLS := k.(*crypto.BLS12381PrivateKey); !isBLS {
+			senders = append(senders, i)
+		}
+	}
+	for hi, n := range []int{1, 900} {
+		h := P.Height()
+		var txs []node.MixTx
+		for i := 0; i < n; i++ {
+			txs = append(txs, node.MixTx{Kind: "send", Bytes: net.SendTx(net.AcctKeys[senders[i%len(senders)]], net.FreshAddr(hi*10000+i), 1000, 10000, h, ""), Expect: true})
+		}
+		pre := P.StateDigest()
+		p, ok := c.Propose(P, txs, "produce")
+		if !ok {
+			o.Fail("C03:proposer-failed", "ProduceProposal failed", map[string]any{"case": o.CurCase()})
+			return
+		}
+		blk := new(lib.Block)
+		_ = lib.Unmarshal(p.Block, blk)
+		raw := 0
+		for _, tx := range blk.Transactions {
+			raw += len(tx)
+		}
+		c.Hold = true
+		okP := c.Validate(P, p)
+		resP := ""
+		if okP {
+			resP = c.Commit(P, p, false)
+		}
+		post := P.StateDigest()
+		o.Op(fmt.Sprintf("def %d %s %s %s %s", h, pre, p.ID, post, p.Obs), "def")
+		c.Release()
+		st := &step{h: h, p: p, pre: pre, post: post, want: fmt.Sprintf("ok state=%s obs=%s", post, p.Obs)}
+		got := map[string]string{"propose+validate+commit-cached": resP}
+		if okP {
+			c.Validate(V, p)
+			got["validate+commit-cached"] = c.Commit(V, p, false)
+			got["commit-replay"] = c.Commit(R, p, false)
+			got["sync"] = c.Commit(S, p, true)
+		}
+		for _, path := range []string{"propose+validate+commit-cached", "validate+commit-cached", "commit-replay", "sync"} {
+			if g, ran := got[path]; !ran || g != st.want {
+				o.Fail("C03:path-divergence:propose-"+path+":full-block-of-small-txs",
+					fmt.Sprintf("height %d: a full block of %d small transactions (%d raw transaction bytes <= limit %d; serialized block %d bytes, blockSize %d) proposed from an overflowing mempool: path %q gives %q, proposer's answer %q",
+						h, p.NTx, raw, room, len(p.Block), lib.MaxBlockHeaderSize+room, path, g, st.want),
+					map[string]any{"case": o.CurCase(), "height": h, "ntx": p.NTx, "raw_tx_bytes": raw, "serialized_block_bytes": len(p.Block), "block_size_param": lib.MaxBlockHeaderSize + room, "block": hex.EncodeToString(p.Block)})
+				return
+			}
+		}
+		o.Count(fmt.Sprintf("corpus-full-block:%d-submitted:included=%d:serialized-minus-blocksize=%d", n, p.NTx, len(p.Block)-int(lib.MaxBlockHeaderSize+room)))
+		if P.MempoolCount() > 0 {
+			c.Restart(P)
+		}
+	}
 }
 
 // step is one height of the chain as the proposer saw it.
